@@ -204,6 +204,35 @@ fn main() {
             cx.out.case("", &[], &["aead-encryptor".into(), n.to_string(), nums(&reqs)], &format!("{} of {} octets", r.as_ref().map(|o| o.len()).unwrap_or(0), reference.len()), Some(ok), "stream-encryptor-aead");
         }
     }
+    // ---- 3b. the line wrapper: every cut of short inputs into write() calls, with flushes in between
+    {
+        use generic_array::typenum::{U1, U2, U3, U4, U64};
+        use pgp::line_writer::{LineBreak, LineWriter};
+        macro_rules! lw { ($n:ty, $w:expr, $chunks:expr, $flush:expr) => {{
+            let mut out = Vec::new();
+            { let mut lw = LineWriter::<_, $n>::new(&mut out, LineBreak::Lf); for (i, c) in $chunks.iter().enumerate() { let _ = lw.write_all(c); if $flush && i % 2 == 0 { let _ = lw.flush(); } } let _ = lw.finish(); }
+            out
+        }}; }
+        for len in 0..=7usize {
+            let data: Vec<u8> = (0..len as u8).map(|i| b'a' + i).collect();
+            for comp in all_compositions(len) {
+                let chunks = split_by(&data, &comp);
+                for flush in [false, true] {
+                    for w in 1..=4usize {
+                        let o = match w { 1 => lw!(U1, 1, chunks, flush), 2 => lw!(U2, 2, chunks, flush), 3 => lw!(U3, 3, chunks, flush), _ => lw!(U4, 4, chunks, flush) };
+                        cx.out.case("lwrun", &[w.to_string(), hxs(&chunks)], &["linewriter".into(), w.to_string(), hx(&data), nums(&comp), (flush as u8).to_string()], &hx(&o), None, "line-writer-exhaustive");
+                    }
+                }
+            }
+        }
+        for _ in 0..(if thorough { 300 } else { 40 }) {
+            let n = cx.rng.range(0, 400) as usize; let data = cx.rng.bytes(n).iter().map(|b| b'A' + b % 26).collect::<Vec<u8>>();
+            let comp = cx.rng.composition(n); let chunks = split_by(&data, &comp);
+            let o = lw!(U64, 64, chunks, true);
+            cx.out.case("lwrun", &["64".into(), hxs(&chunks)], &["linewriter".into(), "64".into(), hx(&data), nums(&comp), "1".into()], &hx(&o), None, "line-writer-64");
+        }
+    }
+
     // ---- 4. the armor writer on its own: sink faults at every call, including the final flush
     for n in [0usize, 1, 47, 48, 49, 200] {
         let data = cx.rng.bytes(n);
